@@ -14,6 +14,11 @@ if os.path.realpath(REPO) != "/repo":   # runs against scratch copies (seeded ch
     _h = hashlib.sha1(os.path.realpath(REPO).encode()).hexdigest()[:8]
     REPLAY = os.path.join(RUN, "replay_scratch", _h)
     GEN = os.path.join(RUN, "gen_scratch", _h)       # generated case files too (concurrent runs of one property)
+# one directory of generated case files per process: two runs of the same property at the same time (another tier or seed)
+# must not evaluate each other's files
+GEN = os.path.join(GEN, f"p{os.getpid()}")
+import atexit
+atexit.register(lambda d=GEN: shutil.rmtree(d, ignore_errors=True))
 PY = "/venv/bin/python"
 NCPU = 16
 
